@@ -608,7 +608,9 @@ class VmdkSuite(Suite):
         if case["kind"] != "flat":
             out["info"] = [int(bool(d.is_sesparse)), int(d.header.flags), int(d.header.capacity), int(d.header.grain_size),
                            int(d._grain_directory_size), int(d._grain_table_size)]
-        for kind, a, b in case["reqs"]:
+        for k, (kind, a, b) in enumerate(case["reqs"]):
+            if k % 2 == 1:
+                fh.seek((abs(a) * 7 + k * 4099) % max(1, fh.size))      # the handle is the caller's: it may have been used meanwhile
             if kind == "sectors":
                 out["reqs"].append(call(v.read_sectors, a, b))
             elif kind == "dsectors":
